@@ -538,6 +538,13 @@ def side_conditions_b(ctx, P):
             flat.extend(e[1] if e[0] == "phi" else (e,))
         okf = bool(flat) and all((fold(x) == 0) or (x[0] == "unop" and x[1] == "Not" and any(y[0] == "call" and method(strip_generics(y[1])) == "halflife_passed" for y in walk(x))) for x in flat)
         det3 += "; filter closure returns %s" % [show(x)[:50] for x in flat]
+    if not okf:
+        # the same filter written as a loop in get_known_answers itself: a record is collected only on the false edge of
+        # halflife_passed(now)
+        e_f = guard_edges(P, gka, lambda atom, outcome, bb: atom[0] == "call" and method(strip_generics(atom[1])) == "halflife_passed" and outcome is False)
+        pushes = [b for b, t in gka.calls() if name_matches(cname(t), "Vec::push")]
+        okf = bool(e_f) and bool(pushes) and all(must_pass_edges(gka, b, e_f) for b in pushes)
+        det3 += "; loop form: %d push(es) behind !halflife_passed: %s" % (len(pushes), okf)
     ctx.ob("C15.SC.update-ttl-after-halflife-filter", "update_ttl / get_known_answers", ok3 and okf, ut.loc(), det3)
 
 
